@@ -264,7 +264,7 @@ class Evaluator:
     MAX_DEPTH = 8
 
     def __init__(self, project: Project, models: Optional[Dict[str, Callable]] = None, method_models=None,
-                 attr_models=None, facts=None, cond_hook=None, inline=True, call_hook=None):
+                 attr_models=None, facts=None, cond_hook=None, inline=True, call_hook=None, assume_false=()):
         self.P = project
         self.models = models or {}  # callee qualname or bare name -> fn(ev, args, kwargs, node)
         self.method_models = method_models or {}  # (kind, method) or method -> fn(ev, recv, args, kwargs, node)
@@ -272,6 +272,7 @@ class Evaluator:
         self.facts = facts or {}  # symbol name -> 'pos' | 'nonneg'
         self.cond_hook = cond_hook
         self.call_hook = call_hook
+        self.assume_false = tuple(assume_false)  # unknown conditions whose text contains one of these are taken as False
         self.inline = inline
         self.events: List[tuple] = []
         self.decisions: List[tuple] = []
@@ -312,6 +313,10 @@ class Evaluator:
 
     def decide(self, node, env) -> bool:
         """Truth of a TOP condition: replay the prefix, then take True and queue False."""
+        if self.assume_false:
+            txt = norm(node, 200)
+            if any(a in txt for a in self.assume_false):
+                return False
         i = len(self.decisions)
         if i < len(self._prefix):
             choice = self._prefix[i]
@@ -947,6 +952,8 @@ class Evaluator:
             v = self.compare(op, l, r, e)
             if v is TOP:
                 return TOP
+            if isinstance(v, Obj):
+                return v  # element-wise comparison of an opaque array
             if not v:
                 return False
             l = r
@@ -1760,7 +1767,17 @@ def _as_load(t):
     return n
 
 
+_GEN_CACHE = {}
+
+
 def _is_generator(fn):
+    k = id(fn)
+    if k not in _GEN_CACHE:
+        _GEN_CACHE[k] = (fn, _is_generator_uncached(fn))
+    return _GEN_CACHE[k][1]
+
+
+def _is_generator_uncached(fn):
     stack = list(fn.body)
     while stack:
         n = stack.pop()
